@@ -129,6 +129,73 @@ func makeScenarios(expr string, n int, docIdx int) []scenario {
 	return out
 }
 
+// Go-typed documents (two layouts of the same field names) for the struct scenarios.
+type rowA struct {
+	ID   float64
+	Name string
+	Note string
+}
+type rowB struct {
+	Note string
+	ID   float64
+	Name string
+	Tags []string
+}
+type tableA struct {
+	Name string
+	Rows []rowA
+}
+type tableB struct {
+	Rows []*rowB
+	Name string
+}
+
+func structDoc(i int) interface{} {
+	if i%2 == 0 {
+		return tableA{"ta", []rowA{{1, "a1", "n1"}, {2, "a2", "n2"}, {3, "a3", "n3"}}}
+	}
+	return &tableB{[]*rowB{{"m1", 1, "b1", []string{"x"}}, {"m2", 2, "b2", nil}, nil}, "tb"}
+}
+
+var structExprs = []string{"rows[*].[id, name, note]", "rows[*].name", "rows[0].note", "name", "rows[?id > `1`].name", "length(rows)", "rows[].note", "rows[-1]", "{n: name, r: rows[*].id}", "rows[*].tags[]"}
+
+// makeStructScenarios: one compiled expression searched by the threads on Go struct documents of two
+// different layouts (reflection paths, per-type caches).
+func makeStructScenarios(expr string, n int) []scenario {
+	globals := jmespath.VerifGlobals()
+	compile := func() *jmespath.JMESPath {
+		jp, err, pn := impl.Compile(expr)
+		if err != nil || pn != nil {
+			return nil
+		}
+		return jp
+	}
+	var out []scenario
+	out = append(out, scenario{"S5 same expression, struct documents of different types", expr, func() (*scState, []func() interface{}) {
+		st := &scState{jp: compile()}
+		st.shared = snap.Roots{{Name: "expr", V: st.jp}, {Name: "globals", V: globals}}
+		var bodies []func() interface{}
+		for i := 0; i < n; i++ {
+			d := structDoc(i)
+			st.docs = append(st.docs, d)
+			bodies = append(bodies, searchBody(st.jp, d))
+		}
+		return st, bodies
+	}, n})
+	out = append(out, scenario{"S6 same expression, same struct document", expr, func() (*scState, []func() interface{}) {
+		st := &scState{jp: compile()}
+		d := structDoc(1)
+		st.docs = []interface{}{d}
+		st.shared = snap.Roots{{Name: "expr", V: st.jp}, {Name: "globals", V: globals}, {Name: "doc", V: d}}
+		var bodies []func() interface{}
+		for i := 0; i < n; i++ {
+			bodies = append(bodies, searchBody(st.jp, d))
+		}
+		return st, bodies
+	}, n})
+	return out
+}
+
 type soloInfo struct {
 	result  string
 	writes  []string // unsynchronised writes: "site: diff"
@@ -234,7 +301,12 @@ func workC12(c *shardCtx) {
 		if c.thorough() && ei < curated && ei%3 == 0 {
 			n = 3
 		}
-		for _, sc := range makeScenarios(text, n, ei) {
+		scs := makeScenarios(text, n, ei)
+		if ei < len(structExprs) {
+			// the first shards-worth of indices also carry the struct-document scenarios
+			scs = append(scs, makeStructScenarios(structExprs[ei], 2)...)
+		}
+		for _, sc := range scs {
 			sc := sc
 			c.add("scenarios", 1)
 			// (1) solo monitor runs
